@@ -173,6 +173,7 @@ where
         let kb = key_bytes(ki, ctx.key_len);
         let key: K = K::from(kb.clone());
         let nviol_before_key = ctx.violations.borrow().len();
+        let fault_seq_before_key = world.inner.borrow().last_fault_seq;
         let is_partial_key = partial_keys.contains(&kb);
         // ---- ask everything once
         let read = tagged(&world, tag, storage.read(&key)).await;
@@ -393,6 +394,20 @@ where
         }
         // one defect, one report: mismatches of a key that has a partially written record collapse
         // into a single finding
+        // an injected fault hit one of this key's queries: the query may report the error, it must not
+        // give another answer (absent for a stored key, other bytes)
+        if world.inner.borrow().last_fault_seq != fault_seq_before_key && ctx.violations.borrow().len() > nviol_before_key {
+            world.probe("query_hit_by_injected_fault");
+            let mut vs = ctx.violations.borrow_mut();
+            let tail: Vec<Violation> = vs.drain(nviol_before_key..).collect();
+            for mut v in tail {
+                if v.cause.contains("returned Err(") {
+                    continue;
+                }
+                v.cause = format!("{} (while an injected read error hit the query)", v.cause);
+                vs.push(v);
+            }
+        }
         if ctx.violations.borrow().len() > nviol_before_key {
             mismatching.insert(ki);
         }
